@@ -261,7 +261,7 @@ def run_probe(path, outdir, timeout=600):
             rl = it.render()
             if getattr(it, "_probe", False):
                 sig = next(l for l in rl if l.kind == "repo" and " fn " in " " + l.text)
-                is_res = re.search(r"->\s*\(res:\s*Result<", sig.text) is not None
+                is_res = re.search(r"->\s*\(res:\s*(?:core::result::|std::result::)?Result<", sig.text) is not None
                 for l in rl:
                     if "PROBE_POST" in l.text:
                         l.text = l.text.replace("PROBE_POST", "res is Err" if is_res else "false")
@@ -274,11 +274,16 @@ def run_probe(path, outdir, timeout=600):
         f.write("\n".join(l.text for l in lines) + "\n")
     r = run_verus(rs, [], timeout, multiple_errors=100)
     failed_tags = set()
+    broken = []
     for d in r["diags"]:
         c = classify(d, lines)
         if c:
             for t in c["tags"]:
                 failed_tags.add(t)
+            if not c["semantic"]:
+                broken.append(c["message"][:200])
+    if broken:
+        return dict(ok=False, probes=len(probes), refuted=0, vacuous=["probe file did not compile: " + "; ".join(broken[:3])], wall_s=round(r["wall"], 2))
     vac = [p for p in probes if p not in failed_tags]
     return dict(ok=not vac and not r["timeout"], probes=len(probes), refuted=len(probes) - len(vac), vacuous=vac, wall_s=round(r["wall"], 2))
 
